@@ -100,6 +100,7 @@ type Engine struct {
 	prefilter                      prefilter.Prefilter
 	prefilterPartialCoverage       bool // True when prefilter doesn't cover all alternation branches
 	strategy                       Strategy
+	firstStrategy                  Strategy // the selected strategy while longest mode has replaced it by UseNFA
 	config                         Config
 
 	// fatTeddyFallback is an Aho-Corasick automaton used as fallback for small haystacks
@@ -247,7 +248,19 @@ func (e *Engine) SubexpNames() []string {
 // This affects how alternations like `(a|ab)` match:
 //   - longest=false (default): "a" wins (first branch)
 //   - longest=true: "ab" wins (longest match)
+//
+// The specialised strategies (reverse searchers, literal and class fast paths, lazy
+// DFA) are built for leftmost-first semantics and have no longest mode; in longest
+// mode the engine therefore searches with the NFA strategy (PikeVM / bounded
+// backtracker, which both implement leftmost-longest), and returns to the selected
+// strategy when longest mode is switched off again.
 func (e *Engine) SetLongest(longest bool) {
+	if longest && !e.longest {
+		e.firstStrategy = e.strategy
+		e.strategy = UseNFA
+	} else if !longest && e.longest {
+		e.strategy = e.firstStrategy
+	}
 	e.longest = longest
 	e.pikevm.SetLongest(longest)
 	if e.boundedBacktracker != nil {
